@@ -1717,6 +1717,11 @@ func (c *DefaultCtx) Set(key, val string) {
 }
 
 func (c *DefaultCtx) setCanonical(key, val string) {
+	if strings.IndexByte(val, '\r') >= 0 || strings.IndexByte(val, '\n') >= 0 {
+		// SetCanonical stores the value verbatim; Set replaces CR/LF so the value stays on one header line.
+		c.fasthttp.Response.Header.Set(key, val)
+		return
+	}
 	c.fasthttp.Response.Header.SetCanonical(utils.UnsafeBytes(key), utils.UnsafeBytes(val))
 }
 
